@@ -688,7 +688,8 @@ impl NodeId {
     ///
     /// # Panics
     ///
-    /// Panics if the arena already has `usize::max_value()` nodes.
+    /// Panics if the arena already has `usize::max_value()` nodes, or if the
+    /// current node was already [`remove`]d.
     ///
     /// # Examples
     ///
@@ -713,7 +714,14 @@ impl NodeId {
     /// assert_eq!(iter.next(), None);
     /// ```
     /// [`append`]: struct.NodeId.html#method.append
+    /// [`remove`]: struct.NodeId.html#method.remove
     pub fn append_value<T>(self, value: T, arena: &mut Arena<T>) -> NodeId {
+        // Must be checked before allocating: the new node could otherwise be
+        // placed in the very slot of the removed parent.
+        assert!(
+            !arena[self].is_removed(),
+            "Preconditions not met: cannot append a value to a removed node"
+        );
         let new_child = arena.new_node(value);
         self.append_new_node_unchecked(new_child, arena);
 
